@@ -6,7 +6,8 @@ from harness.core import fl, zl, nl, ll, pl, optl, FLOAT_AXIOMS
 PROP = "C02"
 THEOREMS = {"Artap.Props.C02": [
     "C02_fnds_rank", "C02_fnds_total", "C02_front1_is_nondominated_set", "C02_same_front_no_domination",
-    "C02_fnds_order_independent", "C02_rank_unique", "C02_fnds_rank_generic", "C02_float_fnds_rank"]}
+    "C02_fnds_order_independent", "C02_rank_cost_only", "C02_rank_unique", "C02_dominators_spec",
+    "C02_fnds_rank_generic", "C02_float_fnds_rank"]}
 AXIOMS_OK = FLOAT_AXIOMS
 TRUSTED = [
     "Coq 8.16.1 kernel, vm_compute for model evaluation (no native_compute)",
